@@ -1,5 +1,5 @@
 """Which verification tasks serve which property, and the fixed lists reported in every evidence file."""
-TASK_MODULES = ["pyvc.tasks_layer1", "pyvc.tasks_c07", "pyvc.tasks_c16", "pyvc.tasks_c20", "pyvc.tasks_c13", "pyvc.tasks_c04", "pyvc.tasks_c01"]
+TASK_MODULES = ["pyvc.tasks_layer1", "pyvc.tasks_c07", "pyvc.tasks_c16", "pyvc.tasks_c20", "pyvc.tasks_c13", "pyvc.tasks_c04", "pyvc.tasks_c01", "pyvc.tasks_c19"]
 
 L1_ALL = ["layer1/Circuit." + m for m in ("type", "is_output", "fanin", "fanout", "nodes", "edges", "connect", "disconnect", "remove",
                                           "set_output", "set_type", "outputs", "inputs", "io", "startpoints", "endpoints", "uid", "add[default]", "add[uid]")]
@@ -16,8 +16,13 @@ PROPERTY_TASKS = {
     "C13": ["C13/clog2"],
     "C16": ["C16/remove_unloaded", "layer1/Circuit.remove", "layer1/Circuit.fanin", "layer1/Circuit.fanout", "layer1/Circuit.type", "layer1/Circuit.is_output"],
     "C20": ["C20/lint", "layer1/Circuit.type", "layer1/Circuit.fanin", "layer1/Circuit.fanout", "layer1/Circuit.is_output", "layer1/Circuit.nodes"],
-    "C19": L1_ALL + ["C20/lint", "layer1/Circuit.copy", "C04/miter[self,default]", "C04/miter[pair,default]", "C04/miter[pair,explicit]"],
+    "C19": [t for t in L1_ALL if "add[" not in t and "connect" not in t] + ["layer1/Circuit.copy"],  # exact-view contracts of the read-only methods
 }
+
+def _c19_frame_tasks():
+    from pyvc import tasks_c19
+    return sorted(tasks_c19.TASKS)
+
 
 TRUSTED_BASE = [
     "assumed contract of pysat (IDPool.id injective; CNF.append; Solver.solve sound and complete for the added clauses; get_model indexes every variable occurring in a clause) -- python-sat is absent, the shim is written to this contract",
@@ -44,3 +49,6 @@ EXTRACTION_DROPS = [
 ]
 
 TASK_FILES = {"layer1": "circuitgraph/circuit.py", "C07": "circuitgraph/circuit.py", "C16": "circuitgraph/circuit.py", "C20": "circuitgraph/utils.py", "C04": "circuitgraph/tx.py", "C13": "circuitgraph/utils.py", "C01": "circuitgraph/sat.py"}
+
+PROPERTY_TASKS["C19"] = PROPERTY_TASKS["C19"] + _c19_frame_tasks()
+TASK_FILES["C19"] = "circuitgraph/tx.py"
